@@ -362,6 +362,10 @@ func (g *c16Gen) document(t *c16Type, strict bool, plan *c16Plan) *doc.Node {
 		case x == 8 && !strict:
 			plan.how[f.Name] = "null"
 			m.Map = append(m.Map, doc.P(f.key(), doc.Null()))
+			// an alias next to an explicitly null primary is still just a leftover key
+			if len(f.Aliases) > 0 && g.r.IntN(2) == 0 {
+				m.Map = append(m.Map, doc.P(f.Aliases[g.r.IntN(len(f.Aliases))], doc.S("alias-next-to-null-primary")))
+			}
 		default:
 			plan.how[f.Name] = "absent"
 		}
@@ -707,6 +711,29 @@ func checkC16(c *run.Ctx) {
 			plan := &c16Plan{}
 			m := g.document(t, strict, plan)
 			src := docToAny(m).(*ordered.MapSA)
+			if dI%3 == 1 {
+				// the decoded input may carry deleted / displaced entries: rebuild it with junk keys
+				// interleaved, then delete or rename them away (tombstones stay in the storage)
+				src = ordered.NewMap[string, any](0)
+				var junk []string
+				for pi, p := range m.Map {
+					if g.r.IntN(2) == 0 {
+						jk := fmt.Sprintf("junk-%d", pi)
+						src.Set(jk, "stale value that no field and no catch-all may see")
+						junk = append(junk, jk)
+					}
+					src.Set(p.Key, docToAny(p.Val))
+				}
+				for ji, jk := range junk {
+					if ji == 0 || g.r.IntN(3) != 0 {
+						src.Delete(jk)
+					}
+				}
+				for _, jk := range junk {
+					src.Delete(jk) // whatever is left; the earlier deletions decide whether a compaction happened in between
+				}
+				c.Count("inputs_with_tombstones", 1)
+			}
 			// (a) destination pre-populated with sentinels: routing, untouched, zeroed
 			dst := reflect.New(rt)
 			exp := c16Expect(t, dst.Elem(), m, plan, true)
